@@ -353,7 +353,7 @@ def plant_line(fts):
     return out
 
 
-def layout_gen(faults, hist=(), plan=None, top="ra.as", standins=None, tail=0, k=0, where=1, style="blank"):
+def layout_gen(faults, hist=(), plan=None, top="ra.as", standins=None, tail=0, how="", n=0, k=0, where=1, style="blank"):
     """A layout enumerated by TLC (spec/ReportGen.tla): hist = the items the includer read, each with the
     file it was read from; plan = {serial line number: [indices into faults]} says which remembered
     lines carry planted statements (the other lines are ordinary code).  The top file starts with the
